@@ -128,9 +128,11 @@ let random_position (r : rng) ~(dfrc : bool) : spos option =
              else q / 8 = 4 && a.(q + 8) = None && a.(q + 16) = None)) (List.init 64 (fun i -> i)) in
         match cands with [] -> None | l -> let q = pick r l in Some (if them = White then q - 8 else q + 8)
       end else None in
-    let half = [| 0; 0; 1; 7; 8; 30; 99; 100; 150 |].(rand r 9) in
+    (* incl. the boundaries of 8-, 16- and 32-bit counters: a clock stored too narrowly anywhere (history record, FEN
+       field) shows within a few plies *)
+    let half = [| 0; 0; 0; 1; 7; 8; 30; 99; 100; 150; 0; 1; 7; 8; 30; 99; 100; 150; 254; 255; 256; 65534; 65536; 4294967294 |].(rand r 24) in
     let half = if ep <> None then 0 else half in
-    let p = spos_of_array a turn ~wk:rights.(0) ~wq:rights.(1) ~bk:rights.(2) ~bq:rights.(3) ~ep ~half ~full:(1 + rand r 80) () in
+    let p = spos_of_array a turn ~wk:rights.(0) ~wq:rights.(1) ~bk:rights.(2) ~bq:rights.(3) ~ep ~half ~full:(if chance r 1 12 then [| 254; 255; 65535; 4294967295 |].(rand r 4) else 1 + rand r 80) () in
     if lc dfrc p then Some p else None
   end
 
